@@ -174,7 +174,7 @@ def parse_template(path):
             else:
                 if kw == "end":
                     out.append(("fn", cur)); cur = None; cur_dir = None
-                elif kw in ("props", "nocanary", "mutself", "macro", "block", "binops", "refarg", "addarg"):
+                elif kw in ("props", "nocanary", "mutself", "macro", "block", "exprblock", "binops", "refarg", "addarg"):
                     cur.directives.append((kw, rest, [], i + 1))
                 else:
                     cur_dir = (kw, rest, [], i + 1)
@@ -466,7 +466,29 @@ def process_fn(repo, glob, fs, log):
     real_sig = src[toks[item.tok_lo].start:toks[bo].start].strip()
 
     # optional: restrict to a sub-block (async move block / closure body) : //@block "async move {" n
+    expr_wrap = False
     for (kw, rest, payload, tl) in fs.directives:
+        if kw == "exprblock":
+            # E11: the verification target is ONE expression of the function that ends in a brace block (a `match x { .. }`
+            # used as a closure body, say): from the start of the needle to the brace that closes it
+            p = parse_quoted(rest)
+            needle = [x[1] for x in p if x[0] == "q"][0]
+            nth = 0
+            for x in p:
+                if x[0] == "w" and x[1].isdigit(): nth = int(x[1])
+            s, e = find_text(src, lo, hi, needle, nth, f"{fs.name} exprblock")
+            ob = None; first = None
+            for k in range(tlo, thi):
+                if s <= toks[k].start < e:
+                    if first is None: first = k
+                    if toks[k].kind == "open" and toks[k].text == "{": ob = k
+            if ob is None:
+                raise VxError(f"lost anchor: exprblock `{needle}` has no opening brace")
+            # body range = the whole expression: pretend the braces are just outside it
+            lo, hi = toks[first].start, toks[br[ob]].end
+            tlo, thi = first, br[ob] + 1
+            expr_wrap = True
+            log.append({"fn": fs.fid(), "rule": "E11", "line": line_of(src, s), "note": f"verification target is the expression `{needle} .. }}` of {fs.name}"})
         if kw == "block":
             p = parse_quoted(rest)
             needle = [x[1] for x in p if x[0] == "q"][0]
@@ -576,7 +598,7 @@ def process_fn(repo, glob, fs, log):
     loop_for = {}
     for (kw, rest, payload, tl) in fs.directives:
         what = f"{fs.name} (template line {tl})"
-        if kw in ("block", "nocanary", "props", "macro"):
+        if kw in ("block", "exprblock", "nocanary", "props", "macro"):
             continue
         if kw == "localmacro":
             # E4: a `macro_rules!` defined inside the function, single arm with `$x:ty`/`$x:expr`/`$x:ident` parameters, is
@@ -939,10 +961,12 @@ def main():
                 continue
             fs = val
             r = process_fn(repo, glob, fs, log)
-            block_mode = any(d[0] == "block" for d in fs.directives)
+            block_mode = any(d[0] in ("block", "exprblock") for d in fs.directives)
             if not block_mode:
                 a, b = check_sig(fs, r["real_sig"])
-                if a != b:
+                # an unnamed parameter `_` of the real signature may be given any `_`-prefixed name (Verus needs an identifier)
+                same = len(a) == len(b) and all(x == y or (x == "_" and (y or "").startswith("_")) for x, y in zip(a, b))
+                if not same:
                     raise VxError(f"lost anchor (E1): parameters of {fs.container}::{fs.name} are {a} in /repo but {b} in the contract")
             start_gen = len(out_lines) + 1
             dup_sig = None
